@@ -1,4 +1,3 @@
-import os
 from vlib import Job
 
 META = dict(
@@ -10,7 +9,7 @@ META = dict(
                 "compiled in): for EVERY well-formed zone of exactly N units (wf = Z1 segments tile the zone, Z2 back-pointers, Z3 no two "
                 "adjacent free runs, Z4 tree/chunk-list bookkeeping of the free runs, Z5 retired nodes; every tiling, every FULL/EMPTY "
                 "assignment, every order of the free runs on their chunk lists, 0-2 retired nodes, arbitrary junk in stale entries) one "
-                "zone_malloc of ANY size whose unit count fits an int / one zone_free of any segment-start or out-of-zone address / "
+                "zone_malloc of ANY size_t size / one zone_free of any segment-start or out-of-zone address / "
                 "zone_in_use re-establish wf and satisfy the postconditions of the property statement (NULL iff zero units or no free "
                 "run of enough units; result aligned, inside the zone, start of the smallest sufficient free run, no overlap with a "
                 "live allocation; segment FULL with exactly ceil(size/unit) units, remainder free right after; freed run merged with "
@@ -35,16 +34,21 @@ META = dict(
                  "zone_free precondition (as for free(3)): the address is unit-aligned and is either outside the zone or the start of a "
                  "segment; freeing an address in the middle of a segment is outside the contract (the code would act on stale entries)",
                  "max_segment >= 1 and unit_size >= 1 (zone_malloc_init dereferences segment 0 and divides by unit_size)",
+                 "wrap-around of (size + unit_size - 1) in zone_malloc: it can only wrap for size > SIZE_MAX - unit_size + 1; since 6026e99 such a "
+                 "size is refused first whenever size / unit_size > max_segment, i.e. for every zone with (max_segment + 1) * unit_size <= "
+                 "SIZE_MAX - unit_size + 1 (every zone that fits the address space); discharged here for the enumerated units 1, 8, 512 over "
+                 "the full size_t range, NOT for astronomically large unit sizes (e.g. unit 2^63, max_segment 4, size SIZE_MAX: the guard "
+                 "passes, the sum wraps to 0 units and NULL is returned although ceil(size/unit) = 2 <= 4)",
                  "at most 2 retired chunk-list nodes on rbtree_free_list in the pre-state (the code only tests emptiness and pops one)"],
 )
 
 MANIFEST = dict(
     category="other",
     text="Inductive-step contracts on the real zone allocator, discharged by CBMC for every well-formed pre-state of a zone of N units "
-         "(fully symbolic tiling, statuses, chunk-list orders, stale entries; any request size whose unit count fits an int, any "
+         "(fully symbolic tiling, statuses, chunk-list orders, stale entries; any size_t request, any "
          "segment-start / out-of-zone address): unbounded in history length, bounded in zone size (N = 5 quick, 4..6 thorough, below the "
-         "property's 16), therefore 'other'.  A separate job shows a genuine defect: sizes of 2^31*unit bytes or more overflow the "
-         "`int nb_units` (crash, or a 1-unit block returned for a 4 GiB request).",
+         "property's 16), therefore 'other'.  The former int-truncation defect of nb_units (sizes of 2^31*unit bytes or "
+         "more; repaired by 6026e99) is covered by the any-size obligations and by dedicated oversized / beyond_int jobs.",
     note="NOT decided: zones of more than 6 units (the property's exhaustive domain is 16) and the 'long random sequences on larger "
          "zones' part (testing is outside the technique); the real red-black tree (abstract contract, C36); PARSEC_OBJ_NEW (C34); "
          "concurrent interference (lock assumed); zone_free of a mid-segment address; zone_malloc_fini and zone_debug; more than 2 "
@@ -98,15 +102,17 @@ def jobs(tier):
                      bounded="max_segment = %d, unit_size = %d (enumerated)" % (n, unit),
                      functions=["zone_malloc_init", "zone_in_use"], timeout=600, mem_gb=3, min_obligations=12))
         J.append(Job("malloc.any_size." + tag, "h_zone.c", entry="h_malloc_any_size", defines=D(n, unit), unwind=U(n), unwindset=US,
-                     bounded="fresh zone of %d units of %d bytes; every size_t request whose unit count fits an int" % (n, unit),
+                     bounded="fresh zone of %d units of %d bytes; every size_t request" % (n, unit),
                      functions=["zone_malloc"], timeout=900, mem_gb=4, min_obligations=4))
     # lemmas on the abstract view (scalars only): complete for each N of the property's domain
     for n in (range(1, 17) if full else (5, 6, 16)):
         J.append(Job("lemma.N%d" % n, "h_zone.c", entry="h_lemma", defines=D(n), unwind=U(n), functions=[], timeout=600, mem_gb=2,
                      min_obligations=3))
-    # genuine defect, isolated: unit counts that do not fit `int nb_units`
-    if not os.environ.get("C28_SKIP_DEFECT"):
-        J.append(Job("defect.malloc_beyond_int.N4.u1", "h_zone.c", entry="h_malloc_beyond_int", defines=D(4, 1), unwind=U(4), unwindset=US,
-                     bounded="two concrete witnesses: 2^31+1 and 2^32+1 units requested from a fresh 4-unit zone",
-                     functions=["zone_malloc"], timeout=600, mem_gb=4, min_obligations=2))
+    # requests needing more units than the zone holds (incl. unit counts beyond `int`: defect repaired by 6026e99)
+    for n, unit in ([(4, 1), (4, 8)] if not full else [(n, u) for n in (1, 4, 16) for u in (1, 8, 512)]):
+        for tag, dd in (("oversized", {}), ("beyond_int", {"BEYOND_INT": None})):
+            d = D(n, unit); d.update(dd)
+            J.append(Job("malloc.%s.N%d.u%d" % (tag, n, unit), "h_zone.c", entry="h_malloc_oversized", defines=d, unwind=U(n),
+                         unwindset=US, bounded="fresh zone of %d units of %d bytes; every size_t request needing more units" % (n, unit),
+                         functions=["zone_malloc"], timeout=900, mem_gb=4, min_obligations=3))
     return J
